@@ -226,6 +226,19 @@ func cmdCheck(args []string) {
 			}
 		}
 		for a := range res.Ctx.assumed {
+			if strings.HasPrefix(a, "contract-of:") {
+				k2 := strings.TrimPrefix(a, "contract-of:")
+				proved := false
+				for _, kk := range keys {
+					if kk == k2 {
+						proved = true
+					}
+				}
+				if !proved {
+					assumptions["in-package contract used modularly but NOT proved by this check: "+shortKey(k2)] = true
+				}
+				continue
+			}
 			assumptions[a] = true
 		}
 		for a := range res.Ctx.externs {
